@@ -39,6 +39,8 @@ class SchedConfig:
 
 
 SCHED = SchedConfig()
+from .common import REPO as _REPO      # noqa: E402
+_REPO_SRC = str(_REPO / "src") + "/"
 
 # --- process-local state of worker processes ---------------------------------------------------
 # joblib's (loky) workers are separate, *reused* processes: mutable module-level state (caches)
@@ -203,8 +205,15 @@ class _Worker:
                         _w._yield_point()
                     return local
 
-                def glob(frame, event, arg, _code=code):
-                    if frame.f_code is _code:
+                fine = SCHED.p_switch > 0 or SCHED.replay is not None
+
+                def glob(frame, event, arg, _code=code, _src=_REPO_SRC):
+                    if not fine:
+                        return None      # run-to-completion schedules switch at task boundaries only: no line tracing needed
+                    # every line of the task body AND of any function of the repository's own modules it
+                    # calls is a pre-emption point (a read-then-write race hidden in a helper is reachable)
+                    co = frame.f_code
+                    if co is _code or co.co_filename.startswith(_src):
                         return local
                     return None
 
